@@ -232,11 +232,13 @@ def all_fns(ctx):
     for b in ctx.f.user_bodies():
         if b.coroutine and b.ret == "bool" and ctx.r.fn_of(b).argc == 1 and any(a.callee and a.callee.endswith("StreamExt::next") for a in awaits(b)):
             out.append(b)
+        elif b.coroutine and b.ret == "bool" and ctx.r.fn_of(b).argc == 1 and any(a.callee and a.callee.endswith("StreamExt::all") for a in awaits(b)):
+            out.append(b)   # `stream.all(ready).await`: the library's own conjunction (judged by `identity-predicate` below)
     return out
 
 
 @rule("C02.COMBINATORS", ["C02"], """`both` returns true only if both futures yielded true; `all` returns true only after the stream is exhausted and
-      returns false for every false item""", "K2", floor=3)
+      returns false for every false item""", "K2", floor=2)
 def combinators(ctx):
     bs = both_fns(ctx)
     ctx.need(bs, "`both` combinator")
@@ -259,6 +261,17 @@ def combinators(ctx):
     als = all_fns(ctx)
     ctx.need(als, "`all` combinator")
     for b in als:
+        lib_all = [a for a in awaits(b) if a.callee and a.callee.endswith("StreamExt::all")]
+        if lib_all and not any(a.callee and a.callee.endswith("StreamExt::next") for a in awaits(b)):
+            # written with the stream combinator: `all` of the verdicts themselves (the predicate hands each verdict back: `future::ready`), returned as it is
+            good = False
+            for a in lib_all:
+                t_ = a.producer[1]
+                ident = any(x_["k"] == "const" and re.search(r"future::ready(::<.*>)?$", str(x_.get("fn") or x_.get("val") or "")) for x_ in t_["args"][1:])
+                returned = a.poll_call_bb is not None and b.term(a.poll_call_bb).get("dest") is not None and 0 in b.prov.flows_forward(b.term(a.poll_call_bb)["dest"]["local"])
+                good = good or (ident and returned)
+            ctx.check(good, f"{short(b.name)}/identity-predicate", [site(b, lib_all[0].into_bb)], "`all` is written with `StreamExt::all` but its predicate is not the verdict itself, or its result is not what is returned")
+            continue
         paths = enumerate_paths(b)
         is_next = is_await_of(lambda c: c.endswith("StreamExt::next"))
         bad_true, false_ok, bad_false = [], 0, []
@@ -564,6 +577,19 @@ def cmd_eq(ctx):
                     at |= b.prov.operand_atoms(a)
                 return any(c.endswith("::get") for c in atom_callres(at)) and ("variant", "Ok") in at
             compared = any(eq_saved(o) for o in ro) or has_fact(facts, "bool", True, eq_saved)
+            if not compared:
+                # `recorded.map_or(false, |r| *r == stdout)` / `is_some_and(|r| ..)`: absent means changed, present means compared
+                def via_option(o):
+                    if o[0] != "call" or not re.search(r"Option::<.*>::(map_or|is_some_and)(::<.*>)?$", callee_decl(o[3])):
+                        return False
+                    t_ = o[3]
+                    if not any(c.endswith("::get") for c in atom_callres(b.prov.operand_atoms(t_["args"][0]))):
+                        return False
+                    if callee_decl(t_).split("::<")[0].endswith("map_or") and not (len(t_["args"]) > 1 and const_val(t_["args"][1]) == "false"):
+                        return False
+                    cbs = closure_bodies_passed(b, t_)
+                    return bool(cbs) and all(any(o2[0] == "call" and re.search(r"PartialEq(<.*>)?>?::eq$", o2[1]) for p2 in enumerate_paths(cb) for o2 in ret_origins(cb, p2)) for cb in cbs)
+                compared = any(via_option(o) for o in ro) or has_fact(facts, "bool", True, via_option)
             if not (ran and compared):
                 bad.append(p)
         ctx.check(not bad, f"{short(b.name)}/ran+equal", [b.loc()], f"{len(bad)} true-returning path(s) accept a command that failed or whose output was not compared with the record: {fmt_path(b, bad[0]) if bad else ''}",
